@@ -147,6 +147,8 @@ def values(rng, mode):
 
 def random_matrix(rng, n, kind=None, vmode="float", cplx=False, dominant=False, density=None):
     pat, kind = pattern(rng, n, kind, density)
+    if dominant:
+        pat = set(pat) | set((i, i) for i in range(n))      # dominance needs every diagonal entry in the pattern (kinds such as randzd leave it out)
     gv = values(rng, vmode)
     if cplx:
         vf = lambda i, j: (gv(), gv())
